@@ -158,6 +158,59 @@ fn check_roundtrip(r: &Report, t: &RTx) {
     }
 }
 
+/// (a2) "extraction of any PSET is deterministic and reflects exactly its fields", for PSETs that were NOT produced by
+/// from_tx (hand-built through the public fields, decoded from bytes, reached by updater histories): extract twice,
+/// compare with the field-by-field reading (flag bits of the index stripped, commitments before explicit values, lock
+/// time by BIP370), the same after a serialization hop, and each Output::to_txout() against the extracted output.
+fn check_extraction(r: &Report, p: &Pset, origin: &str) {
+    r.trans(2);
+    let case = || json!({"pset": hex(&serialize(p)), "origin": origin});
+    let reqs: Vec<(Option<u32>, Option<u32>)> = p.inputs().iter().map(|i| (i.required_time_locktime.map(|t| t.to_consensus_u32()), i.required_height_locktime.map(|h| h.to_consensus_u32()))).collect();
+    let exp_lock = bip370(&reqs, p.global.tx_data.fallback_locktime.map(|l| l.to_consensus_u32()));
+    let res = guard(|| (p.extract_tx(), p.extract_tx()));
+    match res {
+        Err(pn) => r.violation(format!("extract/panic@{}", crate::engine::panic_site(&pn)), case(), pn),
+        Ok((Ok(a), Ok(b))) => {
+            r.trace(1);
+            if a != b {
+                r.violation("extract/not-deterministic", case(), "two extractions of the same PSET differ");
+            }
+            match exp_lock {
+                None => r.violation("extract/ok-despite-locktime-conflict", case(), "extract_tx succeeded although no lock-time kind is supported by all inputs"),
+                Some(l) => {
+                    let rx = reference_extract(p, l);
+                    let ra = from_tx(&a);
+                    if ra != rx {
+                        let what = if ra.ins != rx.ins { "inputs" } else if ra.outs != rx.outs { "outputs" } else { "header" };
+                        r.violation(format!("extract/differs-from-fields/{}/{}", what, origin.split('/').next().unwrap_or("")), case(), format!("extract_tx() is not the field-by-field reading of the PSET ({})", what));
+                    }
+                }
+            }
+            // the per-output view agrees with the extracted transaction (the nonce only where the output is blinded:
+            // to_txout documents the receiver-key convention for unblinded outputs)
+            for (j, o) in p.outputs().iter().enumerate() {
+                let t = o.to_txout();
+                let x = &a.output[j];
+                if t.asset != x.asset || t.value != x.value || t.script_pubkey != x.script_pubkey || t.witness != x.witness || (o.is_partially_blinded() && t.nonce != x.nonce) {
+                    r.violation("extract/to_txout-differs-from-extracted-output", case(), format!("output {}: to_txout() and extract_tx().output disagree", j));
+                }
+            }
+            // the same PSET after a serialization hop extracts to the same transaction
+            if let Ok(q) = elements::encode::deserialize::<Pset>(&serialize(p)) {
+                match q.extract_tx() {
+                    Ok(c) if c == a => {}
+                    other => r.violation("extract/differs-after-serialization-hop", case(), format!("{:?}", other.map(|t| t.txid()))),
+                }
+            }
+        }
+        Ok((ea, _)) => {
+            if exp_lock.is_some() {
+                r.violation("extract/error", case(), format!("{:?}", ea.err()));
+            }
+        }
+    }
+}
+
 // ------------------------------------------------------------------------------------------------
 // (b) unique id under updater / signer / finalizer histories
 
@@ -295,6 +348,9 @@ fn bfs_unique_id(r: &Report, base: &Pset, base_name: &str, depth: usize) {
             r.state(1);
             let mut h = hist.clone();
             h.push(op.clone());
+            if h.len() <= 2 {
+                check_extraction(r, &q, "updater-history");
+            }
             let mut ok = true;
             match uid(&q) {
                 Ok(id) if id == id0 => {}
@@ -468,7 +524,7 @@ pub fn run(r: &Report) {
     r.set_rule(
         "(a) every well-formed transaction of the structural generators (witness-presence classes, 0..3 x 0..3 shapes over 6 input kinds incl. \
          the null outpoint, the output field product, sighash shapes, blinder outputs): extract_tx(from_tx(t)) == t, extraction twice, extraction \
-         == field-by-field reading; (b) breadth-first search from 6 base PSETs over updater/signer/finalizer operations (24 input field \
+         == field-by-field reading; (a2) every PSET of the C07 generator (hand-built fields incl. flagged indices, explicit values next to commitments, blinded outputs) and every state of (b) up to depth 2: extraction twice, == field-by-field reading with the BIP370 lock time, unchanged by a serialization hop, Output::to_txout() == extracted output; (b) breadth-first search from 6 base PSETs over updater/signer/finalizer operations (24 input field \
          families incl. sequence and final_script_sig set AND changed, 9 output families, 4 global) at every position, depth <= 3 (4), states \
          de-duplicated by serialized bytes, invariant unique_id == initial id, plus negative controls; (c) complete product of lock-time \
          requirement assignments {none, time(3), height(3), both(9)}^n, n = 0..4, x 3 fallbacks against a transcription of BIP370. \
@@ -492,6 +548,11 @@ pub fn run(r: &Report) {
     let txs: Vec<RTx> = txs.into_iter().filter(well_formed).collect();
     r.set_extra("roundtrip_transactions", json!(txs.len()));
     txs.par_iter().for_each(|t| check_roundtrip(r, t));
+    // (a2) PSETs not produced by from_tx: the C07 generator (covering rows, single fields, tap trees, length boundaries)
+    let gen_psets = crate::props::c07::generated_psets(thorough);
+    r.set_extra("extraction_psets", json!(gen_psets.len() + 1));
+    gen_psets.par_iter().for_each(|(o, p)| check_extraction(r, p, o));
+    check_extraction(r, &blinded_base(), "blinded-base");
     // (b)
     let depth = r.tier.pick(3usize, 4);
     let bases: Vec<(String, Pset)> = vec![
